@@ -147,6 +147,12 @@ func LocationFunctions(ctx *Context, loc *Location, runtime *otto.Otto, env map[
 		if err != nil {
 			throwJavascript(call.Otto.Call("new Error", nil, "No id (first arg) given"))
 		}
+		if a := call.Argument(0); a.IsUndefined() || a.IsNull() {
+			// No id given (ToString says "undefined" or
+			// "null" then, and every such fact lands under
+			// that one id): an id will be generated.
+			id = ""
+		}
 
 		x, err := call.Argument(1).Export()
 		if err != nil {
@@ -177,6 +183,10 @@ func LocationFunctions(ctx *Context, loc *Location, runtime *otto.Otto, env map[
 		id, err := call.Argument(0).ToString()
 		if err != nil {
 			throwJavascript(call.Otto.Call("new Error", nil, "No id (first arg) given"))
+		}
+		if a := call.Argument(0); a.IsUndefined() || a.IsNull() {
+			// As in AddFact: no id given.
+			id = ""
 		}
 
 		x, err := call.Argument(1).Export()
